@@ -224,13 +224,18 @@ int main(int argc, char* const* argv)
     }
     char* script_str = nullptr;
     if (pipe_in) {
-        char buf[1024];
-        if (!fgets(buf, 1024, stdin)) {
+        // read the whole first line, whatever its length (a fixed 1024 byte buffer silently cut long scripts,
+        // and was read uninitialized when stdin was empty)
+        char* buf = nullptr;
+        size_t cap = 0;
+        ssize_t len = getline(&buf, &cap, stdin);
+        if (len < 0) {
             fprintf(stderr, "warning: no input\n");
+            len = 0;
         }
-        int len = strlen(buf);
         while (len > 0 && (buf[len-1] == '\n' || buf[len-1] == '\r')) buf[--len] = 0;
-        script_str = strdup(buf);
+        script_str = strdup(len > 0 ? buf : "");
+        free(buf);
     } else if (ca.l.size() > 0) {
         script_str = strdup(ca.l[0]);
         ca.l.erase(ca.l.begin(), ca.l.begin() + 1);
